@@ -16,7 +16,7 @@ from __future__ import annotations
 from hypothesis import strategies as st
 
 from props import iter_common
-from vlib import dsops, history
+from vlib import dsops, history, oracles
 from vlib.core import Stage
 
 ID = "C03"
@@ -83,9 +83,14 @@ def run_case(case, ctx):
                         opts["file_parallelism"] = fp
                     iter_common.install_delays(desc, paths, r["delays"])
                     try:
-                        got = dsops.read_all(ds, split, iface, **opts)
+                        ok, got = oracles.guarded(
+                            ctx, "deterministic", ("iteration-raised", iface),
+                            f"{iface} split={split} S={s} fp={fp} {hname}",
+                            lambda: dsops.read_all(ds, split, iface, **opts))
                     finally:
                         iter_common.uninstall_delays(desc)
+                    if not ok:
+                        continue
                     ids = [dsops.ex_id_of(e) for e in got]
                     sequences.append(((fp, hname), ids))
                     ctx.count("passes")
